@@ -227,6 +227,13 @@ func (c *Conn) Close() error {
 	return nil
 }
 
+// InjectReadErr makes the next Read of this endpoint fail with err (a failing
+// system call on an otherwise healthy connection) and wakes a blocked reader.
+func (c *Conn) InjectReadErr(err error) {
+	c.ReadErr = err
+	c.rd.wake(c.n.s, &c.rd.readers)
+}
+
 // CloseWrite shuts down the sending direction only (TCP half-close): the
 // peer reads what was written and then EOF, while this endpoint can go on
 // reading.
